@@ -8,7 +8,6 @@
 (* name is kept in a TLC register for the report.                                                     *)
 EXTENDS Rot, Json, IOUtils
 Traces == ndJsonDeserialize(IOEnv.TRACE_FILE)
-FileDevices == ndJsonDeserialize(IOEnv.C03_DEVICES)          \* Devices <- FileDevices (RotTrace.cfg)
 NT == Len(Traces)
 VARIABLES tid, l, lastSha
 tvars == <<vars, tid, l, lastSha>>
